@@ -15,4 +15,8 @@ VERIF_WARM_OUT="$(pwd)/.cache/warm-gocache.tmp" .cache/bin/vcheck.setup warmcach
 rm -rf .cache/warm-gocache
 mv .cache/warm-gocache.tmp .cache/warm-gocache
 rm -f .cache/bin/vcheck.setup
+# the coverage-instrumented build of the C12 fuzz target (first build takes minutes; one execution only)
+mkdir -p .cache/fuzzwarm
+VERIF_FUZZ_WORK="$(pwd)/.cache/fuzzwarm" go test -tags verif -run '^$' -fuzz '^FuzzFrontEnd$' -fuzztime 1x ./internal/fuzzfe -test.fuzzcachedir="$(pwd)/.cache/fuzzwarm" >/dev/null 2>&1 || true
+rm -rf .cache/fuzzwarm internal/fuzzfe/testdata
 echo "setup done"
